@@ -200,6 +200,11 @@ def _apply_real(objs, prog, constructor=False):
                 d.add_edge(objs[a[1]], objs[a[2]])
         except Exception as e:  # noqa: BLE001
             return d, (k, e)
+        if k < len(prog) - 1:
+            try:
+                d.calculate()  # evaluate the intermediate diagram on the same object: results must not be remembered
+            except Exception:  # noqa: BLE001
+                pass
     return d, None
 
 
@@ -306,6 +311,77 @@ def _nodes_before(prog, k):
             if x not in s:
                 s.append(x)
     return s
+
+
+def enum_recalc(tier, seed):
+    names = [u[0] for u in universe(tier)]
+    progs = []
+    for x, y in itertools.permutations(names, 2):
+        progs.append((("edge", x, y),))
+    for x, y, z in itertools.permutations(names[:7], 3):
+        progs.append((("edge", x, y), ("edge", y, z)))
+        progs.append((("edge", x, y), ("node", z)))
+    for p in progs:
+        yield p
+
+
+@family("C05", "recalculate_after_assignment", enum_recalc)
+def case_recalc(ctx, cfg):
+    from geometer.base import TensorDiagram
+
+    prog = tuple(tuple(a) for a in cfg)
+    U = universe(ctx.tier)
+    sig = {name: (s, dim) for name, s, dim, _ in U}
+    objs = make_objects(ctx.tier)
+    # give every object its own array (the copy() twin shares one on purpose elsewhere; here entries are assigned)
+    for k in objs:
+        objs[k].array = objs[k].array.copy()
+    m = Model(sig)
+    for a in prog:
+        r = m.add_node(a[1]) if a[0] == "node" else m.add_edge(a[1], a[2])
+        if r == "error":
+            ctx.skipped += 1
+            return
+    d = TensorDiagram()
+    try:
+        for a in prog:
+            if a[0] == "node":
+                d.add_node(objs[a[1]])
+            else:
+                d.add_edge(objs[a[1]], objs[a[2]])
+    except Exception:  # noqa: BLE001
+        ctx.skipped += 1  # the fresh self-loop finding and erroring programs are the BFS family's business
+        return
+    ctx.state(prog)
+    first, e0 = ctx.call(d.calculate)
+    if e0 is not None:
+        return
+    # assign entries of each node in turn and evaluate again: the diagram denotes the Einstein sum of the CURRENT entries
+    for name in dict.fromkeys(x for a in prog for x in a[1:]):
+        t = objs[name]
+        idx = (0,) * t.rank
+        t[idx] = t.array[idx] + 7
+        arrays = {k: v.array for k, v in objs.items()}
+        want, nf, ncov, ncon = reference_contract(m, arrays)
+        for how, dd in (("same-diagram", d), ("copied-diagram", d.copy())):
+            res, e = ctx.call(dd.calculate)
+            ctx.trace()
+            if e is not None or res.array.shape != want.shape or not np.array_equal(res.array, want):
+                ctx.fail(f"diagram:stale-result-after-assignment:{how}", "calculate", {"program": prog, "assigned_node": name}, want, e if e is not None else res.array)
+                return
+    # adding a node / an edge after an evaluation
+    for extra in ("a", "b"):
+        if extra in m.nodes:
+            continue
+        m2 = m.copy()
+        m2.add_node(extra)
+        d.add_node(objs[extra])
+        want, nf, ncov, ncon = reference_contract(m2, {k: v.array for k, v in objs.items()})
+        res, e = ctx.call(d.calculate)
+        ctx.trace()
+        if e is not None or res.array.shape != want.shape or not np.array_equal(res.array, want):
+            ctx.fail("diagram:stale-result-after-add_node", "calculate", {"program": prog, "added_node": extra}, want, e if e is not None else res.array)
+        return
 
 
 # ---------------------------------------------------------------------------------------------------
